@@ -612,7 +612,7 @@ def _evolve_ref(psi, t, T, dt, order, bt, L, d, cyclic, imag, ham_norm):
               "MPS or product initial states, orders 1, 2, 4, dt in [0.03, 0.2] or a tol giving such a dt, t0 in {0, 0.37}, 2-3 "
               "successive targets (not multiples of dt, and exact multiples) through update_to and at_times, real and "
               "imaginary time, split cutoff 0 or default (no bond cap): t == T (4 ulp), state == written-out product formula "
-              "(1e-8 with cutoff 0, 1e-4 with the default cutoff 1e-10 on the discarded weight), norm 1, err bookkeeping, convergence ratio under step halving (odd periodic chains: first order only, "
+              "(1e-8 with cutoff 0, 1e-3 with the default cutoff 1e-10 on the discarded weight), norm 1, err bookkeeping, convergence ratio under step halving (odd periodic chains: first order only, "
               "exact formula only for single-step evolutions); periodic chains have no canonical form, so without truncation every "
               "gate doubles the bond: periodic histories are limited to two calls / two steps with orders 1 and 2, order 4 is "
               "covered there at the level of single sweeps")
@@ -734,7 +734,7 @@ def tebd(cx):
                     return f"target {T}: norm of the state {nrm} (real time)"
                 if imag:
                     got = got / nrm   # the normalisation itself is the business of the next contract
-                e = _close(got, ref, 1e-8 if cutoff0 else 1e-4, f"state at T={T:.4f} vs written-out product formula (order {order})")
+                e = _close(got, ref, 1e-8 if cutoff0 else 1e-3, f"state at T={T:.4f} vs written-out product formula (order {order})")
                 if e:
                     return e
                 if abs(err_got - err_want) > 1e-9 * max(err_want, 1e-300) + 1e-15:
@@ -777,7 +777,7 @@ def tebd(cx):
                 got = got / nrm
             elif abs(nrm - 1) > (1e-9 if cutoff0 else 1e-6):
                 return f"norm {nrm} (real time)"
-            return _close(got, psi, 1e-8 if cutoff0 else 1e-4, f"state after sweeps {seq} (queue={queue})")
+            return _close(got, psi, 1e-8 if cutoff0 else 1e-3, f"state after sweeps {seq} (queue={queue})")
 
         cx.check("TEBD.sweep(direction, dt_frac): right = even bonds (+ boundary bond on odd periodic chains), left = odd bonds "
                  "(+ boundary bond on even periodic chains), each gate = expm(-i dt_frac dt term)",
